@@ -25,6 +25,7 @@ type provInfo struct {
 
 type loopW struct {
 	locals   map[*ssa.Alloc]bool
+	heapFresh map[string]bool // written only at objects allocated inside the loop
 	heapAll  map[string]bool
 	heapRefs map[string]map[string]Term
 }
@@ -53,30 +54,42 @@ type loopRun struct {
 func (vc *FuncVC) newFrame(fn *ssa.Function, fc *FuncContract, cf *ContractFile, prefix string, depth int) *Frame {
 	fr := &Frame{vc: vc, fn: fn, fc: fc, cf: cf, vals: map[ssa.Value]Val{}, prefix: prefix, calls: map[string]int{}, depth: depth}
 	fr.escapes = map[*ssa.Alloc]bool{}
+	var onlyAccess func(v ssa.Value, self ssa.Value) bool
+	onlyAccess = func(v ssa.Value, self ssa.Value) bool {
+		for _, r := range *v.Referrers() {
+			switch u := r.(type) {
+			case *ssa.UnOp:
+				if u.Op != token.MUL {
+					return false
+				}
+			case *ssa.Store:
+				if u.Val == v {
+					return false
+				}
+			case *ssa.DebugRef:
+			case *ssa.FieldAddr:
+				if u.X != v || !onlyAccess(u, self) {
+					return false
+				}
+			case *ssa.IndexAddr:
+				if u.X != v || !onlyAccess(u, self) {
+					return false
+				}
+			default:
+				return false
+			}
+		}
+		return true
+	}
 	for _, b := range fn.Blocks {
 		for _, in := range b.Instrs {
 			a, ok := in.(*ssa.Alloc)
 			if !ok {
 				continue
 			}
-			if isAggregate(a.Type().(*types.Pointer).Elem()) {
+			elem := a.Type().(*types.Pointer).Elem()
+			if a.Heap || !onlyAccess(a, a) || (isAggregate(elem) && vc.enc.zeroVal(elem) == nil) {
 				fr.escapes[a] = true
-				continue
-			}
-			for _, r := range *a.Referrers() {
-				switch u := r.(type) {
-				case *ssa.UnOp:
-					if u.Op != token.MUL {
-						fr.escapes[a] = true
-					}
-				case *ssa.Store:
-					if u.Val == ssa.Value(a) {
-						fr.escapes[a] = true
-					}
-				case *ssa.DebugRef:
-				default:
-					fr.escapes[a] = true
-				}
 			}
 		}
 	}
@@ -113,24 +126,38 @@ func (fr *Frame) restore(s snapshot) {
 
 // localsByName maps source-level names to their allocs (last declaration wins
 // for shadowed names; names are disambiguated as name#k for the k-th one).
-func (fr *Frame) localsByName() map[string]*ssa.Alloc {
+func (fr *Frame) localsByName(pos token.Pos) map[string]*ssa.Alloc {
 	m := map[string]*ssa.Alloc{}
 	count := map[string]int{}
+	var allocs []*ssa.Alloc
 	for _, b := range fr.fn.Blocks {
 		for _, in := range b.Instrs {
 			if a, ok := in.(*ssa.Alloc); ok && a.Comment != "" {
-				count[a.Comment]++
-				if _, dup := m[a.Comment]; !dup {
-					m[a.Comment] = a
-				}
-				m[fmt.Sprintf("%s_%d", a.Comment, count[a.Comment])] = a
+				allocs = append(allocs, a)
 			}
+		}
+	}
+	sort.SliceStable(allocs, func(i, j int) bool { return allocs[i].Pos() < allocs[j].Pos() })
+	for _, a := range allocs {
+		count[a.Comment]++
+		m[fmt.Sprintf("%s_%d", a.Comment, count[a.Comment])] = a
+		// the nearest declaration at or before pos wins; without a position the first one
+		cur, have := m[a.Comment]
+		switch {
+		case !have:
+			m[a.Comment] = a
+		case pos.IsValid() && a.Pos() <= pos && a.Pos() >= cur.Pos():
+			m[a.Comment] = a
 		}
 	}
 	return m
 }
 
 func (fr *Frame) specEnv(cur *State, where string) *SpecEnv {
+	return fr.specEnvAt(cur, where, token.NoPos)
+}
+
+func (fr *Frame) specEnvAt(cur *State, where string, pos token.Pos) *SpecEnv {
 	vc := fr.vc
 	env := &SpecEnv{vc: vc, fn: fr.fn, cf: fr.cf, vars: map[string]Val{}, cur: cur, old: fr.entry, oldVars: map[string]Val{}, where: where}
 	if fr.fn.Pkg != nil {
@@ -138,7 +165,8 @@ func (fr *Frame) specEnv(cur *State, where string) *SpecEnv {
 	} else if fr.fn.Parent() != nil && fr.fn.Parent().Pkg != nil {
 		env.pkg = fr.fn.Parent().Pkg.Pkg
 	}
-	env.locals = fr.localsByName()
+	env.locals = fr.localsByName(pos)
+	env.loopHeads = fr.loopHeads
 	for i, p := range fr.fn.Params {
 		env.oldVars[p.Name()] = fr.params[i]
 	}
@@ -171,7 +199,7 @@ func (fr *Frame) run(st0 *State, reach0 Term) []retPoint {
 		if li != nil {
 			lr = runs[b]
 			if lr == nil {
-				lr = &loopRun{li: li, W: loopW{locals: map[*ssa.Alloc]bool{}, heapAll: map[string]bool{}, heapRefs: map[string]map[string]Term{}}}
+				lr = &loopRun{li: li, W: loopW{locals: map[*ssa.Alloc]bool{}, heapAll: map[string]bool{}, heapFresh: map[string]bool{}, heapRefs: map[string]map[string]Term{}}}
 				if fr.fc != nil {
 					lr.spec = fr.fc.Loops[li.ord]
 				}
@@ -377,9 +405,9 @@ func (fr *Frame) enterLoop(lr *loopRun, stIn *State, reach Term) *State {
 	ord := lr.li.ord
 	// invariant on entry
 	if lr.spec != nil {
-		env := fr.specEnv(stIn, fmt.Sprintf("loop %d invariant", ord))
+		env := fr.specEnvAt(stIn, fmt.Sprintf("loop %d invariant", ord), lr.li.minPos)
 		for j, c := range lr.spec.Invariants {
-			fr.obligeNamed(fmt.Sprintf("loop%d.inv%d.entry", ord, j+1), "loop-inv-entry", reach, env.Bool(c.Expr), c.Src, c.Line)
+			fr.obligeParts(fmt.Sprintf("loop%d.inv%d.entry", ord, j+1), "loop-inv-entry", reach, env, c)
 		}
 	}
 	lr.headPos = vc.sc.Pos()
@@ -411,13 +439,30 @@ func (fr *Frame) enterLoop(lr *loopRun, stIn *State, reach Term) *State {
 			keys = append(keys, k)
 		}
 	}
+	for k := range lr.W.heapFresh {
+		if !seenKey[k] {
+			seenKey[k] = true
+			keys = append(keys, k)
+		}
+	}
 	sort.Strings(keys)
 	for _, k := range keys {
 		sortK := vc.entrySorts[k]
 		cur := vc.heapGet(st, k, sortK)
 		if lr.W.heapAll[k] || !sortK.IsArr() {
-			vc.heapSet(st, k, vc.sc.Decl(k, sortK))
+			vc.heapSet(st, k, vc.declHeap(k, sortK))
 			continue
+		}
+		if lr.W.heapFresh[k] {
+			// objects allocated by earlier iterations may have been written:
+			// everything that existed before the loop keeps its value
+			base := vc.declHeap(k, sortK)
+			name := fmt.Sprintf("r?%d", vc.sc.n)
+			vc.sc.n++
+			rv := Term{name, SInt}
+			body := mkImplies(app(SBool, "<", app(SInt, "refroot", rv), stIn.Alloc), mkEq(mkSelect(base, rv), mkSelect(cur, rv)))
+			vc.sc.Assume(Term{fmt.Sprintf("(forall ((%s Int)) (! %s :pattern ((select %s %s))))", name, body.S, base.S, name), SBool}, "loop writes "+k+" only at objects it allocates (and at the listed references)")
+			cur = base
 		}
 		var rs []string
 		for r := range lr.W.heapRefs[k] {
@@ -427,14 +472,14 @@ func (fr *Frame) enterLoop(lr *loopRun, stIn *State, reach Term) *State {
 		_, el := sortK.ArrParts()
 		for _, r := range rs {
 			ref := lr.W.heapRefs[k][r]
-			nv := vc.sc.Def(k, mkStore(cur, ref, vc.sc.Decl(k+"@", el)))
+			nv := vc.sc.Def(k, mkStore(cur, ref, vc.declHeap(k+"@", el)))
 			vc.prov[nv.S] = provInfo{kind: 0, parent: cur.S, ref: ref}
 			cur = nv
 		}
 		vc.heapSet(st, k, cur)
 	}
 	if lr.spec != nil {
-		env := fr.specEnv(st, fmt.Sprintf("loop %d invariant", ord))
+		env := fr.specEnvAt(st, fmt.Sprintf("loop %d invariant", ord), lr.li.minPos)
 		for _, c := range lr.spec.Invariants {
 			vc.sc.Assume(mkImplies(reach, env.Bool(c.Expr)), fmt.Sprintf("loop %d invariant: %s", ord, c.Src))
 		}
@@ -447,6 +492,10 @@ func (fr *Frame) enterLoop(lr *loopRun, stIn *State, reach Term) *State {
 	}
 	lr.headState = st.clone()
 	lr.headReach = reach
+	if fr.loopHeads == nil {
+		fr.loopHeads = map[int]*State{}
+	}
+	fr.loopHeads[ord] = lr.headState
 	return st
 }
 
@@ -478,12 +527,23 @@ func (fr *Frame) backEdge(lr *loopRun, st *State, reach Term) bool {
 		var refs []Term
 		ok := vc.writesOf(t.S, ht.S, &refs, 0)
 		if ok {
+			var keep []Term
 			for _, r := range refs {
-				if !vc.identsAvailable(r, lr.headPos) {
-					ok = false
-					break
+				if vc.identsAvailable(r, lr.headPos) {
+					keep = append(keep, r)
+					continue
 				}
+				if vc.freshRefs[r.S] {
+					if !lr.W.heapFresh[k] {
+						lr.W.heapFresh[k] = true
+						grew = true
+					}
+					continue
+				}
+				ok = false
+				break
 			}
+			refs = keep
 		}
 		if !ok {
 			lr.W.heapAll[k] = true
@@ -507,9 +567,9 @@ func (fr *Frame) backEdge(lr *loopRun, st *State, reach Term) bool {
 	}
 	ord := lr.li.ord
 	if lr.spec != nil {
-		env := fr.specEnv(st, fmt.Sprintf("loop %d invariant", ord))
+		env := fr.specEnvAt(st, fmt.Sprintf("loop %d invariant", ord), lr.li.minPos)
 		for j, c := range lr.spec.Invariants {
-			fr.obligeNamed(fmt.Sprintf("loop%d.inv%d.preserved", ord, j+1), "loop-inv-preserved", reach, env.Bool(c.Expr), c.Src, c.Line)
+			fr.obligeParts(fmt.Sprintf("loop%d.inv%d.preserved", ord, j+1), "loop-inv-preserved", reach, env, c)
 		}
 		if len(lr.spec.Decreases) > 0 {
 			enc := vc.enc
@@ -545,7 +605,7 @@ func (fr *Frame) exec(in ssa.Instruction, st *State, reach Term) {
 		elem := x.Type().(*types.Pointer).Elem()
 		if !fr.escapes[x] {
 			st.Locals[x] = enc.zeroVal(elem)
-			fr.vals[x] = &LV{T: x.Type(), Kind: LLocal, ElemT: elem}
+			fr.vals[x] = &LV{T: x.Type(), Kind: LLocal, ElemT: elem, Alloc: x}
 			return
 		}
 		r := vc.newRef(st, "obj_"+x.Comment)
@@ -558,6 +618,13 @@ func (fr *Frame) exec(in ssa.Instruction, st *State, reach Term) {
 	case *ssa.BinOp:
 		fr.binop(x, st, reach)
 	case *ssa.FieldAddr:
+		if lv, ok := fr.val(x.X, st).(*LV); ok && lv.Kind == LLocal {
+			stT := x.X.Type().Underlying().(*types.Pointer).Elem()
+			ft := stT.Underlying().(*types.Struct).Field(x.Field).Type()
+			np := append(append([]pathElem{}, lv.Path...), pathElem{field: x.Field})
+			fr.vals[x] = &LV{T: x.Type(), Kind: LLocal, ElemT: ft, Alloc: lv.Alloc, Path: np}
+			return
+		}
 		p := fr.val(x.X, st).(*FV)
 		fr.nilCheck(p.L[0], reach, "field access through nil pointer")
 		stT := x.X.Type().Underlying().(*types.Pointer).Elem()
@@ -705,6 +772,16 @@ func (fr *Frame) store(x *ssa.Store, st *State, reach Term) {
 		return
 	}
 	addr := fr.val(x.Addr, st)
+	if lv, ok := addr.(*LV); ok && lv.Kind == LLocal {
+		a := lv.Alloc.(*ssa.Alloc)
+		fr.checkNoLoc(v)
+		cur, have := st.Locals[a]
+		if !have {
+			cur = vc.enc.zeroVal(a.Type().(*types.Pointer).Elem())
+		}
+		st.Locals[a] = fr.updatePath(cur, lv.Path, v)
+		return
+	}
 	switch p := addr.(type) {
 	case *LV:
 		fv, ok := v.(*FV)
@@ -740,6 +817,14 @@ func (fr *Frame) recordProv(st *State, lv *LV) {}
 
 func (fr *Frame) load(addr Val, elem types.Type, st *State, reach Term) Val {
 	vc := fr.vc
+	if lv, ok := addr.(*LV); ok && lv.Kind == LLocal {
+		a := lv.Alloc.(*ssa.Alloc)
+		cur, have := st.Locals[a]
+		if !have {
+			cur = vc.enc.zeroVal(a.Type().(*types.Pointer).Elem())
+		}
+		return fr.readPath(cur, lv.Path)
+	}
 	switch p := addr.(type) {
 	case *LV:
 		v := vc.loadFlat(st, p, elem)
@@ -992,8 +1077,15 @@ func (fr *Frame) valEq(a, b Val, t types.Type, st *State) Term {
 func (fr *Frame) indexAddr(x *ssa.IndexAddr, st *State, reach Term) {
 	vc := fr.vc
 	enc := vc.enc
-	base := fr.val(x.X, st).(*FV)
 	i := enc.toIdx(fr.val(x.Index, st).(*FV).Term(), x.Index.Type())
+	if lv, ok := fr.val(x.X, st).(*LV); ok && lv.Kind == LLocal {
+		at := x.X.Type().Underlying().(*types.Pointer).Elem().Underlying().(*types.Array)
+		fr.oblige("index", reach, mkAnd(enc.idxLe(enc.idxLit(0), i), enc.idxLt(i, enc.idxLit(at.Len()))), "index in range")
+		np := append(append([]pathElem{}, lv.Path...), pathElem{idx: i, isIdx: true})
+		fr.vals[x] = &LV{T: x.Type(), Kind: LLocal, ElemT: at.Elem(), Alloc: lv.Alloc, Path: np}
+		return
+	}
+	base := fr.val(x.X, st).(*FV)
 	var b, off, ln Term
 	var et types.Type
 	switch u := x.X.Type().Underlying().(type) {
@@ -1172,4 +1264,49 @@ func (fr *Frame) typeAssert(x *ssa.TypeAssert, st *State, reach Term) {
 	}
 	fr.oblige("typeassert", reach, ok, "type assertion succeeds")
 	fr.vals[x] = res
+}
+
+
+func (fr *Frame) readPath(v Val, path []pathElem) Val {
+	for _, pe := range path {
+		switch x := v.(type) {
+		case *SV:
+			v = x.F[pe.field]
+		case *AV:
+			at := x.T.Underlying().(*types.Array)
+			out := &FV{T: at.Elem()}
+			for _, l := range x.L {
+				out.L = append(out.L, mkSelect(l, pe.idx))
+			}
+			v = out
+		default:
+			fr.vc.unsupportedf("path into %T", v)
+		}
+	}
+	return v
+}
+
+func (fr *Frame) updatePath(v Val, path []pathElem, nv Val) Val {
+	if len(path) == 0 {
+		return nv
+	}
+	pe := path[0]
+	switch x := v.(type) {
+	case *SV:
+		out := &SV{T: x.T, F: append([]Val{}, x.F...)}
+		out.F[pe.field] = fr.updatePath(x.F[pe.field], path[1:], nv)
+		return out
+	case *AV:
+		if len(path) != 1 {
+			fr.vc.unsupportedf("nested path below an array element")
+		}
+		fv := nv.(*FV)
+		out := &AV{T: x.T}
+		for i, l := range x.L {
+			out.L = append(out.L, fr.vc.sc.Def("arr", mkStore(l, pe.idx, fv.L[i])))
+		}
+		return out
+	}
+	fr.vc.unsupportedf("update path into %T", v)
+	return nil
 }
